@@ -22,5 +22,9 @@ func (m *Map[K, V]) CompareAndSwap(key K, old V, new V) (deleted bool) {
 }
 func (m *Map[K, V]) Swap(key K, value V) (previous V, loaded bool) {
 	previousUntyped, loaded := m.m.Swap(key, value)
+	if !loaded {
+		var zero V
+		return zero, false
+	}
 	return previousUntyped.(V), loaded
 }
